@@ -7,6 +7,7 @@ use std::ops::Bound;
 use super::*;
 use crate::catalog::ColumnRefId;
 use crate::storage::KeyRange;
+use crate::types::DataValue;
 
 /// The data type of range analysis.
 ///
@@ -103,11 +104,17 @@ pub fn filter_scan_rule() -> Vec<Rewrite> { vec![
 fn is_primary_key_range(expr: &str) -> impl Fn(&mut EGraph, Id, &Subst) -> bool {
     let var = var(expr);
     move |egraph, _, subst| {
-        let Some((column, _)) = &egraph[subst[var]].data.range else {
+        let Some((column, range)) = &egraph[subst[var]].data.range else {
             return false;
         };
         if let Some(col) = egraph.analysis.catalog.get_column(column) {
-            col.is_primary()
+            // the storage compares the keys with the bounds as they are, so each bound has to be
+            // a non-null value of the type of the key
+            let comparable = |bound: &Bound<DataValue>| match bound {
+                Bound::Included(v) | Bound::Excluded(v) => v.data_type() == col.data_type(),
+                Bound::Unbounded => true,
+            };
+            col.is_primary() && comparable(&range.start) && comparable(&range.end)
         } else {
             // handle the case that catalog is not initialized, like in test cases
             false
